@@ -54,6 +54,10 @@ func VerifHolding() {
 	ctx := context.Background()
 	// executing heights, one per era (concrete: they are keys of table rows)
 	eras := []uint32{222275, 231625, 258800, 295195} // bank-limited per height | V4 pooled bank | 2.0 (no PEG conversions) | PIP-10 averages
+	if vrt.Param("edges", 1) == 1 {
+		// the activation blocks themselves: the window of held heights straddles the era change
+		eras = append(eras, 222270, 231620, 258796, 295190)
+	}
 	c := eras[vrt.Choose("era", len(eras))]
 	gap := uint32(1 + vrt.Choose("gap", 2)) // blocks c-gap+1 .. c-1 have no rates
 	last := c - gap                         // most recent rated height before c
